@@ -20,6 +20,13 @@ import os
 from typing import Dict, List, Optional, Set, Tuple
 
 SCOPES = (ast.FunctionDef, ast.AsyncFunctionDef, ast.Lambda, ast.ClassDef)
+
+
+def unparse_(e) -> str:
+    try:
+        return ast.unparse(e)
+    except Exception:
+        return ''
 INVENTORY_PATH = os.path.join(os.path.dirname(os.path.dirname(os.path.abspath(__file__))), 'reference', 'functions.json')
 MAX_ROUNDS = 4
 
@@ -480,7 +487,7 @@ class Inliner:
         return defs[0]
 
     def check_callee(self, m, node, cls, caller_mod):
-        if node.decorator_list:
+        if node.decorator_list and not all(isinstance(d, ast.Name) and d.id == 'staticmethod' for d in node.decorator_list):
             raise NotInlinable('decorated')
         if isinstance(node, ast.AsyncFunctionDef):
             raise NotInlinable('async')
@@ -514,8 +521,8 @@ class Inliner:
         if any(isinstance(a, ast.Starred) for a in call.args) or any(k.arg is None for k in call.keywords):
             raise NotInlinable('starred call')
         params = _params(node)
-        bound = cls is not None
-        is_static = False
+        is_static = any(isinstance(d, ast.Name) and d.id == 'staticmethod' for d in node.decorator_list)
+        bound = cls is not None and not is_static
         args: Dict[str, ast.AST] = {}
         pos = list(call.args)
         names = list(params)
@@ -710,7 +717,94 @@ class Inliner:
                 i += 1
 
         do_list(fn.body)
+        if self._inline_expressions(mod, qual, fn):
+            changed = True
         return changed
+
+    def _inline_expressions(self, mod, qual, fn) -> bool:
+        """`... helper(a, b) ...` anywhere inside an expression, where the new helper is `return <expression>` and nothing else: the call
+        is replaced by that expression with the parameters substituted (each parameter is used at most once, or its argument is a
+        name / constant / attribute chain)."""
+        inl = self
+        hit = [False]
+
+        class T(ast.NodeTransformer):
+            def visit_FunctionDef(self, node):
+                if node is fn:
+                    self.generic_visit(node)
+                return node
+
+            def visit_Lambda(self, node):
+                return node
+
+            def visit_Call(self, node):
+                self.generic_visit(node)
+                target = inl.target_of(node, mod, fn)
+                if target is None or target[2] is fn:
+                    return node
+                m, q, cnode, cls, parent = target
+                body = [b for b in cnode.body if not (isinstance(b, ast.Expr) and isinstance(b.value, ast.Constant))]
+                if len(body) != 1 or not isinstance(body[0], ast.Return) or body[0].value is None:
+                    return node
+                try:
+                    inl.check_callee(m, cnode, cls, mod)
+                except NotInlinable:
+                    return node
+                if any(isinstance(a, ast.Starred) for a in node.args) or any(k.arg is None for k in node.keywords) or cnode.decorator_list and \
+                        not all(isinstance(d, ast.Name) and d.id == 'staticmethod' for d in cnode.decorator_list):
+                    return node
+                static = any(isinstance(d, ast.Name) and d.id == 'staticmethod' for d in cnode.decorator_list)
+                params = _params(cnode)
+                args = {}
+                names = list(params)
+                if cls is not None and not static:
+                    if not names or not isinstance(node.func, ast.Attribute):
+                        return node
+                    args[names[0]] = node.func.value
+                    names = names[1:]
+                if len(node.args) > len(names):
+                    return node
+                for pn, a in zip(names, node.args):
+                    args[pn] = a
+                for k in node.keywords:
+                    if k.arg not in params or k.arg in args:
+                        return node
+                    args[k.arg] = k.value
+                pos_params = [x.arg for x in cnode.args.posonlyargs + cnode.args.args]
+                defaults = dict(zip(pos_params[len(pos_params) - len(cnode.args.defaults):], cnode.args.defaults))
+                for pn in params:
+                    if pn not in args:
+                        if pn not in defaults:
+                            return node
+                        args[pn] = defaults[pn]
+                expr = copy.deepcopy(body[0].value)
+                uses = {}
+                for x in ast.walk(expr):
+                    if isinstance(x, ast.Name) and x.id in args:
+                        uses[x.id] = uses.get(x.id, 0) + 1
+                        if not isinstance(x.ctx, ast.Load):
+                            return node
+                if any(uses.get(pn, 0) > 1 and not _pure_chain(a) for pn, a in args.items()):
+                    return node
+                # comprehension variables of the helper must not capture names of the arguments
+                bound = {y.id for x in ast.walk(expr) if isinstance(x, ast.comprehension) for y in ast.walk(x.target) if isinstance(y, ast.Name)}
+                free = {y.id for a in args.values() for y in ast.walk(a) if isinstance(y, ast.Name)}
+                if bound & free:
+                    return node
+                size = sum(1 for _ in ast.walk(expr))
+                if size > inl.budget:
+                    return node
+                inl.budget -= size
+                new = _Subst({pn: a for pn, a in args.items()}, {}).visit(expr)
+                for x in ast.walk(new):
+                    if hasattr(x, 'lineno') or isinstance(x, (ast.expr, ast.stmt)):
+                        x.lineno, x.col_offset = node.lineno, node.col_offset
+                        x.end_lineno, x.end_col_offset = getattr(node, 'end_lineno', node.lineno), getattr(node, 'end_col_offset', 0)
+                inl.log.append({'helper': f"{m.relpath}::{q}", 'into': f"{mod.relpath}::{qual}", 'line': node.lineno, 'as': 'expression'})
+                hit[0] = True
+                return new
+        T().visit(fn)
+        return hit[0]
 
     def run(self):
         if not self.new_defs:
@@ -787,13 +881,165 @@ class Canon:
     def __init__(self):
         self.counts = {'A': 0, 'B': 0, 'C': 0, 'D': 0}
 
+    def _expand_memberships(self, fn) -> bool:
+        """`x in ('a', 'b')` -> `x == 'a' or x == 'b'`; `x not in (...)` -> `x != 'a' and x != 'b'`; `isinstance(x, (A, B))` ->
+        `isinstance(x, A) or isinstance(x, B)` (x a name / attribute chain, at most six alternatives)"""
+        canon = self
+        hit = [False]
+
+        class T(ast.NodeTransformer):
+            def visit_Compare(self, node):
+                self.generic_visit(node)
+                if len(node.ops) == 1 and isinstance(node.ops[0], (ast.In, ast.NotIn)) and isinstance(node.comparators[0], (ast.Tuple, ast.List, ast.Set)) \
+                        and 1 <= len(node.comparators[0].elts) <= 6 and all(isinstance(x, ast.Constant) for x in node.comparators[0].elts) and _pure_chain(node.left):
+                    pos = isinstance(node.ops[0], ast.In)
+                    parts = [ast.Compare(left=copy.deepcopy(node.left), ops=[ast.Eq() if pos else ast.NotEq()], comparators=[c]) for c in node.comparators[0].elts]
+                    new = parts[0] if len(parts) == 1 else ast.BoolOp(op=ast.Or() if pos else ast.And(), values=parts)
+                    hit[0] = True
+                    canon.counts['T'] = canon.counts.get('T', 0) + 1
+                    return ast.fix_missing_locations(ast.copy_location(new, node))
+                return node
+
+            def visit_Call(self, node):
+                self.generic_visit(node)
+                if isinstance(node.func, ast.Name) and node.func.id == 'isinstance' and len(node.args) == 2 and not node.keywords and isinstance(node.args[1], ast.Tuple) \
+                        and 2 <= len(node.args[1].elts) <= 6 and _pure_chain(node.args[0]):
+                    parts = [ast.Call(func=ast.Name(id='isinstance', ctx=ast.Load()), args=[copy.deepcopy(node.args[0]), c], keywords=[]) for c in node.args[1].elts]
+                    hit[0] = True
+                    canon.counts['T'] = canon.counts.get('T', 0) + 1
+                    return ast.fix_missing_locations(ast.copy_location(ast.BoolOp(op=ast.Or(), values=parts), node))
+                return node
+        T().visit(fn)
+        return hit[0]
+
     def function(self, fn) -> bool:
-        changed = False
+        changed = self._expand_memberships(fn)
+        # docstrings carry no behaviour
+        for sub in ast.walk(fn):
+            if isinstance(sub, (ast.FunctionDef, ast.AsyncFunctionDef)) and sub.body and isinstance(sub.body[0], ast.Expr) and \
+                    isinstance(sub.body[0].value, ast.Constant) and isinstance(sub.body[0].value.value, str) and len(sub.body) > 1:
+                del sub.body[0]
+                self.counts['S'] = self.counts.get('S', 0) + 1
+                changed = True
         for _ in range(6):
             c = self._lists(fn)
+            c |= self._eliminate_continue(fn)
+            c |= self._propagate_aliases(fn)
             changed |= c
             if not c:
                 break
+        return changed
+
+    def _eliminate_continue(self, fn) -> bool:
+        """`for ..: if c: A; continue` + rest  ->  `for ..: if c: A else: rest` (in tail positions of a loop body); a trailing `continue` is dropped"""
+        changed = [False]
+
+        def tail(lst):
+            # lst is executed last in the loop body: falling off its end starts the next iteration
+            while lst and isinstance(lst[-1], ast.Continue) and len(lst) > 1:
+                lst.pop()
+                changed[0] = True
+            i = 0
+            while i < len(lst):
+                st = lst[i]
+                if isinstance(st, ast.If):
+                    body_c = bool(st.body) and isinstance(st.body[-1], ast.Continue)
+                    else_c = bool(st.orelse) and isinstance(st.orelse[-1], ast.Continue)
+                    rest = lst[i + 1:]
+                    if rest and (body_c or else_c) and not (body_c and else_c):
+                        if body_c:
+                            st.body = st.body[:-1] or [ast.copy_location(ast.Pass(), st)]
+                            st.orelse = list(st.orelse) + rest
+                        else:
+                            st.orelse = st.orelse[:-1] or []
+                            st.body = list(st.body) + rest
+                        del lst[i + 1:]
+                        self.counts['Q'] = self.counts.get('Q', 0) + 1
+                        changed[0] = True
+                    if i == len(lst) - 1:
+                        tail(st.body)
+                        if st.orelse:
+                            tail(st.orelse)
+                i += 1
+
+        for n in ast.walk(fn):
+            if isinstance(n, (ast.For, ast.While)) and not any(isinstance(x, (ast.FunctionDef, ast.Lambda)) and False for x in []):
+                # only this loop's own continues: nested loops are visited on their own
+                tail(n.body)
+        return changed[0]
+
+    @staticmethod
+    def _boolean_valued(e) -> bool:
+        if isinstance(e, ast.Compare):
+            return True
+        if isinstance(e, ast.UnaryOp) and isinstance(e.op, ast.Not):
+            return True
+        if isinstance(e, ast.BoolOp):
+            return all(Canon._boolean_valued(v) for v in e.values)
+        if isinstance(e, ast.Call) and isinstance(e.func, ast.Name) and e.func.id in ('isinstance', 'hasattr', 'callable', 'bool', 'any', 'all', 'issubclass'):
+            return True
+        return False
+
+    PURE_FUNCS = {'eval', 'convert_to_xml_class_name', 'convert_to_xsd_class_name', 'cap_first', 'len', 'str', 'int', 'float', 'type', 'isinstance', 'hasattr', 'callable'}
+
+    def _substitutable(self, e, stored_attrs, multi_def) -> bool:
+        """an expression that denotes the same value wherever it is written inside the function: names that are bound once, attribute chains
+        none of whose attribute names is stored in the function, calls of the pure naming / conversion functions on such expressions"""
+        if isinstance(e, ast.Constant):
+            return True
+        if isinstance(e, ast.Name):
+            return e.id not in multi_def
+        if isinstance(e, ast.Attribute):
+            return e.attr not in stored_attrs and self._substitutable(e.value, stored_attrs, multi_def)
+        if isinstance(e, ast.Call) and isinstance(e.func, ast.Name) and e.func.id in self.PURE_FUNCS and not e.keywords:
+            return all(self._substitutable(a, stored_attrs, multi_def) for a in e.args)
+        return False
+
+    def _propagate_aliases(self, fn) -> bool:
+        """`x = <substitutable expression>` with x bound exactly once in the function: every later use of x is that expression."""
+        uses, defs = self._use_def_counts(fn)
+        stored_attrs = {n.attr for n in ast.walk(fn) if isinstance(n, ast.Attribute) and isinstance(n.ctx, (ast.Store, ast.Del))}
+        # attributes written through list / dict edits of `x.attr` do not rebind x.attr itself
+        multi_def = {k for k, v in defs.items() if v > 1}
+        nested_scopes = [n for n in ast.walk(fn) if isinstance(n, (ast.FunctionDef, ast.Lambda)) and n is not fn]
+        changed = False
+        for lst in Inliner._stmt_lists(fn):
+            i = 0
+            while i < len(lst):
+                st = lst[i]
+                if isinstance(st, ast.Assign) and len(st.targets) == 1 and isinstance(st.targets[0], ast.Name):
+                    x = st.targets[0].id
+                    allowed = set()
+                    if isinstance(st.value, ast.Attribute) and i > 0 and isinstance(lst[i - 1], ast.Assign) and len(lst[i - 1].targets) == 1 and \
+                            ast.dump(lst[i - 1].targets[0]).replace('Store()', 'Load()') == ast.dump(st.value) and \
+                            sum(1 for n in ast.walk(fn) if isinstance(n, ast.Attribute) and n.attr == st.value.attr and isinstance(n.ctx, (ast.Store, ast.Del))) == 1:
+                        allowed = {st.value.attr}       # `obj.f = E` ; `x = obj.f` and obj.f is stored nowhere else: x is obj.f throughout
+                    if defs.get(x, 0) == 1 and uses.get(x, 0) >= 1 and not isinstance(st.value, (ast.Constant, ast.Name)) and \
+                            self._substitutable(st.value, stored_attrs - allowed, multi_def) and \
+                            not any(isinstance(n, ast.Name) and n.id == x for n in ast.walk(st.value)):
+                        # the attribute the alias stands for may be stored by the very statement before (`self.f = E; x = self.f`): allowed when that
+                        # is its only store in the function
+                        value = st.value
+
+                        class R(ast.NodeTransformer):
+                            def visit_Name(self, node):
+                                if node.id == x and isinstance(node.ctx, ast.Load):
+                                    return ast.copy_location(copy.deepcopy(value), node)
+                                return node
+                        # uses before the definition (loops) would change meaning: require the definition to precede every use textually
+                        first_use = min((n.lineno for n in ast.walk(fn) if isinstance(n, ast.Name) and n.id == x and isinstance(n.ctx, ast.Load) and hasattr(n, 'lineno')), default=None)
+                        if first_use is not None and first_use >= getattr(st, 'lineno', 0):
+                            del lst[i]
+                            if not lst:
+                                lst.append(ast.copy_location(ast.Pass(), st))
+                            R().visit(fn)
+                            ast.fix_missing_locations(fn)
+                            self.counts['P'] = self.counts.get('P', 0) + 1
+                            uses, defs = self._use_def_counts(fn)
+                            multi_def = {k for k, v in defs.items() if v > 1}
+                            changed = True
+                            continue
+                i += 1
         return changed
 
     def _lists(self, fn) -> bool:
@@ -812,6 +1058,49 @@ class Canon:
             i = 0
             while i < len(lst):
                 st = lst[i]
+                # `if C: t = True else: t = False` -> `t = C` ; `if C: return True else: return False` -> `return C` (C a comparison / boolean test)
+                if isinstance(st, ast.If) and len(st.body) == 1 and len(st.orelse) == 1 and type(st.body[0]) is type(st.orelse[0]) and \
+                        isinstance(st.body[0], (ast.Assign, ast.Return)) and self._boolean_valued(st.test):
+                    a, b = st.body[0], st.orelse[0]
+                    va, vb = a.value, b.value
+                    if isinstance(va, ast.Constant) and isinstance(vb, ast.Constant) and {va.value, vb.value} == {True, False} and va.value is not vb.value and \
+                            (isinstance(a, ast.Return) or (len(a.targets) == 1 and len(b.targets) == 1 and ast.dump(a.targets[0]) == ast.dump(b.targets[0]))):
+                        val = st.test if va.value is True else ast.UnaryOp(op=ast.Not(), operand=st.test)
+                        new_st = ast.Return(value=val) if isinstance(a, ast.Return) else ast.Assign(targets=a.targets, value=val)
+                        st = lst[i] = ast.fix_missing_locations(ast.copy_location(new_st, st))
+                        self.counts['R'] = self.counts.get('R', 0) + 1
+                        changed = True
+                # `name = obj.attr = E`  ->  `obj.attr = E` ; `name = obj.attr`
+                if isinstance(st, ast.Assign) and len(st.targets) == 2 and {type(t) for t in st.targets} == {ast.Name, ast.Attribute}:
+                    nt = next(t for t in st.targets if isinstance(t, ast.Name))
+                    at = next(t for t in st.targets if isinstance(t, ast.Attribute))
+                    first = ast.copy_location(ast.Assign(targets=[at], value=st.value), st)
+                    load = copy.deepcopy(at)
+                    load.ctx = ast.Load()
+                    second = ast.fix_missing_locations(ast.copy_location(ast.Assign(targets=[nt], value=load), st))
+                    lst[i:i + 1] = [first, second]
+                    st = first
+                    self.counts['M'] = self.counts.get('M', 0) + 1
+                    changed = True
+                # debug / info records of the logging module are not emitted by an unconfigured process: no observable effect
+                if isinstance(st, ast.Expr) and isinstance(st.value, ast.Call) and isinstance(st.value.func, ast.Attribute) and st.value.func.attr in ('debug', 'info') \
+                        and 'log' in unparse_(st.value.func.value).lower() and len(lst) > 1:
+                    del lst[i]
+                    self.counts['L'] = self.counts.get('L', 0) + 1
+                    changed = True
+                    continue
+                # `x = a if c else b` / `return a if c else b` -> if c: ... else: ...
+                if isinstance(st, (ast.Assign, ast.Return)) and isinstance(st.value, ast.IfExp):
+                    ife = st.value
+                    if isinstance(st, ast.Assign):
+                        a = ast.Assign(targets=st.targets, value=ife.body)
+                        b = ast.Assign(targets=[copy.deepcopy(t) for t in st.targets], value=ife.orelse)
+                    else:
+                        a, b = ast.Return(value=ife.body), ast.Return(value=ife.orelse)
+                    new_if = ast.If(test=ife.test, body=[ast.copy_location(a, st)], orelse=[ast.copy_location(b, st)])
+                    st = lst[i] = ast.fix_missing_locations(ast.copy_location(new_if, st))
+                    self.counts['I'] = self.counts.get('I', 0) + 1
+                    changed = True
                 if isinstance(st, ast.AnnAssign) and st.value is not None and isinstance(st.target, (ast.Name, ast.Attribute)):
                     st = lst[i] = ast.copy_location(ast.Assign(targets=[st.target], value=st.value), st)
                     self.counts['N'] = self.counts.get('N', 0) + 1
@@ -845,6 +1134,26 @@ class Canon:
                         lst[i + 1:i + 1] = rest
                         self.counts['C'] += 1
                         changed = True
+                # E: `y = RHS ... x = y` (y defined once, used once - by that copy - and x untouched in between) -> `x = RHS ...`
+                if isinstance(st, ast.Assign) and len(st.targets) == 1 and isinstance(st.targets[0], ast.Name):
+                    y = st.targets[0].id
+                    if defs.get(y, 0) == 1 and uses.get(y, 0) == 1:
+                        for j in range(i + 2, len(lst)):
+                            cj = lst[j]
+                            if isinstance(cj, ast.Assign) and len(cj.targets) == 1 and isinstance(cj.targets[0], ast.Name) and isinstance(cj.value, ast.Name) and cj.value.id == y:
+                                x = cj.targets[0].id
+                                between = [n for k in range(i + 1, j) for n in ast.walk(lst[k]) if isinstance(n, ast.Name) and n.id == x]
+                                in_rhs = [n for n in ast.walk(st.value) if isinstance(n, ast.Name) and n.id == x]
+                                if not between and x != y:
+                                    st.targets[0].id = x
+                                    del lst[j]
+                                    defs[x] = defs.get(x, 1)          # one definition moved, one removed
+                                    uses[y] = 0
+                                    self.counts['E'] = self.counts.get('E', 0) + 1
+                                    changed = True
+                                break
+                            if any(isinstance(n, ast.Name) and n.id == y for n in ast.walk(cj)):
+                                break
                 # D
                 if isinstance(st, ast.Assign) and len(st.targets) == 1 and isinstance(st.targets[0], ast.Name) and i + 1 < len(lst):
                     name = st.targets[0].id
@@ -1012,9 +1321,7 @@ def canonicalise(sm) -> dict:
         if not (m.name.startswith('musicxml') or m.name == 'verysimpletree.tree'):
             continue
         for q, node, cls, parent in module_function_quals(m.tree):
-            if parent is not None:
-                continue        # nested functions are reached through their parent's statement lists
-            if canon.function(node):
+            if canon.function(node):          # nested functions are functions of their own (their parent's pass does not descend into them)
                 changed.add(m.name)
     return {'rewrites': canon.counts, 'changed_modules': sorted(changed)}
 
